@@ -520,6 +520,13 @@ u_bigblock(uint64_t idx, void *arg)
         r.addr != f.addr || (!write && r.bsize != n))
         vh_fail("response-header", key, "%s: type=%u code=%u seq=%u addr=%08x bsize=%u", ctx, r.type, r.meta, r.seq,
                 r.addr, r.bsize);
+    {
+        unsigned crcbits = r.options & (ROPT_HDCRC | ROPT_PLCRC);
+        unsigned want = serial ? (ROPT_HDCRC | (r.plen ? ROPT_PLCRC : 0u)) : 0u;
+        if (crcbits != want || (r.options & 8u) || (!write && ((r.options & ROPT_W16) != 0) != (mem16 != 0)))
+            vh_fail("response-option-bits", key, "%s: reply options %x, transport demands checksum bits %x", ctx, r.options,
+                    want);
+    }
     if (write) {
         if (r.plen != 0)
             vh_fail("response-payload", key, "%s: write acknowledgement with %zu payload octets", ctx, r.plen);
